@@ -106,13 +106,92 @@ def edge_dominates(fn, src, dst, target):
         return target in reachable_from(entry)
     return False
 
-def reaches_without(fn, start, goal_pred, avoid_pred, start_idx=0):
-    """is there a path from instruction (start block, start_idx) to an instruction satisfying goal_pred
-    that does not pass an instruction satisfying avoid_pred?  returns the goal instruction or None"""
-    seen = set()
-    dq = deque([(start, start_idx)])
+def correlated_conditions(fn):
+    """i1 values that decide more than one conditional branch and are computed outside every loop: such a value is the same
+    each time it is tested, so a path that took its true edge once takes the true edge at the other branches as well
+    (`if (missing) rebuild(); pick(); if (missing) stamp();`)"""
+    key = ('corrconds',)
+    if key in fn._cache:
+        return fn._cache[key]
+    uses = {}
+    for b in fn.order:
+        t = b.insts[-1]
+        if t.op == 'br' and len(t.targets) == 2 and t.ops and t.targets[0] != t.targets[1]:
+            uses.setdefault(t.ops[0], []).append(b)
+    inloop = set()
+    for h, body in natural_loops(fn).items():
+        inloop |= set(body)
+    out = set()
+    for c, bs in uses.items():
+        if len(bs) < 2:
+            continue
+        d = fn.defs.get(c)
+        if d is not None and d.bb not in inloop:
+            out.add(c)
+    fn._cache[key] = out
+    return out
+
+def _edge_truth(fn, src, dst, conds):
+    t = src.insts[-1]
+    if t.op == 'br' and len(t.targets) == 2 and t.ops and t.ops[0] in conds and t.targets[0] != t.targets[1]:
+        return t.ops[0], fn.blocks[t.targets[0]] is dst
+    return None
+
+def feasible_reachable(fn, start, avoid_edges=(), known=(), avoid_blocks=()):
+    """blocks reachable from `start` along paths that are consistent in the correlated conditions (see above)"""
+    conds = correlated_conditions(fn)
+    if not conds:
+        return reachable_from(start, avoid_edges=avoid_edges, avoid_blocks=avoid_blocks)
+    st0 = (start, frozenset(known))
+    seen = {st0}
+    dq = deque([st0])
+    out = {start}
     while dq:
-        b, i0 = dq.popleft()
+        b, tr = dq.popleft()
+        trd = dict(tr)
+        for s in b.succs:
+            if (b, s) in avoid_edges or s in avoid_blocks:
+                continue
+            et = _edge_truth(fn, b, s, conds)
+            ntr = tr
+            if et is not None:
+                if et[0] in trd and trd[et[0]] != et[1]:
+                    continue                                  # contradicts an earlier test of the same value
+                ntr = frozenset(set(tr) | {et})
+            stn = (s, ntr)
+            if stn not in seen:
+                seen.add(stn); out.add(s); dq.append(stn)
+    return out
+
+def known_truths_at(fn, block):
+    """truths of correlated conditions established by the branches every path to `block` takes"""
+    conds = correlated_conditions(fn)
+    if not conds:
+        return frozenset()
+    idom = dominators(fn)
+    out = set()
+    b = block
+    while True:
+        nb = idom.get(b)
+        if nb is None or nb is b:
+            break
+        if len(nb.succs) == 2:
+            for dst in nb.succs:
+                et = _edge_truth(fn, nb, dst, conds)
+                if et is not None and block not in reachable_from(fn.entry, avoid_edges={(nb, dst)}):
+                    out.add(et)
+        b = nb
+    return frozenset(out)
+
+def reaches_without(fn, start, goal_pred, avoid_pred, start_idx=0):
+    """is there a (feasible, see correlated_conditions) path from instruction (start block, start_idx) to an instruction
+    satisfying goal_pred that does not pass an instruction satisfying avoid_pred?  returns the goal instruction or None"""
+    conds = correlated_conditions(fn)
+    tr0 = known_truths_at(fn, start) if conds else frozenset()
+    seen = set()
+    dq = deque([(start, start_idx, tr0)])
+    while dq:
+        b, i0, tr = dq.popleft()
         blocked = False
         for ins in b.insts[i0:]:
             if avoid_pred(ins):
@@ -121,9 +200,16 @@ def reaches_without(fn, start, goal_pred, avoid_pred, start_idx=0):
                 return ins
         if blocked:
             continue
+        trd = dict(tr)
         for s in b.succs:
-            if s not in seen:
-                seen.add(s); dq.append((s, 0))
+            ntr = tr
+            et = _edge_truth(fn, b, s, conds) if conds else None
+            if et is not None:
+                if et[0] in trd and trd[et[0]] != et[1]:
+                    continue
+                ntr = frozenset(set(tr) | {et})
+            if (s, ntr) not in seen:
+                seen.add((s, ntr)); dq.append((s, 0, ntr))
     return None
 
 def is_noreturn_block(b):
